@@ -234,12 +234,18 @@ class CallMixin:
         ctx = self.ctx
         env = self.bind_params(fi, args, kwargs, path)
         names = [a.arg for a in fi.node.args.args]
-        kinds = [self.ann_kind(a.annotation, fi) for a in fi.node.args.args]
+        kinds = [(REF(fi.cls.name) if a.arg == 'self' and fi.cls is not None else self.ann_kind(a.annotation, fi)) for a in fi.node.args.args]
         rk = self.ann_kind(fi.node.returns, fi)
-        if any(k[0] not in ('str', 'int', 'bool') for k in kinds + [rk]):
-            raise OutOfReach(f'as_function contract of {fi.fid} on non-value kinds')
-        f = self.uf('fn_' + fi.qualname.replace('.', '_'), [ctx.sorts.sort_of(k) for k in kinds], ctx.sorts.sort_of(rk))
-        key = ('as_function', fi.fid)
+        if any(k[0] not in ('str', 'int', 'bool', 'ref') for k in kinds) or rk[0] not in ('str', 'int', 'bool'):
+            raise OutOfReach(f'as_function contract of {fi.fid} on kinds {kinds} -> {rk}')
+        suffix = ''
+        if any(k[0] == 'ref' for k in kinds):
+            # a pure query on model objects: a function of the receiver / arguments AND of the heap (one symbol per heap version)
+            hk = tuple(sorted((str(k), v.name()) for k, v in path.heap.items() if k[0] in MODEL_CLASSES))
+            keys = ctx.str_fns.setdefault('heap_version_keys', {})
+            suffix = ('@h' + str(keys.setdefault(hk, len(keys) + 1))) if hk else ''
+        f = self.uf('fn_' + fi.qualname.replace('.', '_') + suffix, [ctx.sorts.sort_of(k) for k in kinds], ctx.sorts.sort_of(rk))
+        key = ('as_function', fi.fid, suffix)
         if key not in ctx.str_fns:
             ctx.str_fns[key] = True
             formals = [z3.Const(f'{n}!u', ctx.sorts.sort_of(k)) for n, k in zip(names, kinds)]
